@@ -225,12 +225,15 @@ def run_of_glyphs(draw, la, x, y, start_id, n=None):
     n = n if n is not None else draw(st.integers(1, 6))
     out = []
     near = False
-    w = draw(st.sampled_from([Fr(4), Fr(5), Fr(8)]))
+    # glyphs wider than tall matter for the word margin ("maximum width or height of the new character")
+    w = draw(st.sampled_from([Fr(4), Fr(5), Fr(8), Fr(20)]))
     h = draw(st.sampled_from([Fr(8), Fr(10), Fr(12), Fr(16)]))
-    cur = {"x": x, "y": y, "w": w, "h": h, "t": _letter(start_id)}
+    # glyphs consecutive in the content need not run left to right
+    leftward = draw(st.integers(0, 3)) == 0
+    cur = {"x": x + (200 if leftward else 0), "y": y, "w": w, "h": h, "t": _letter(start_id)}
     out.append(cur)
     for i in range(1, n):
-        w2 = draw(st.sampled_from([w, w, Fr(4), Fr(8)]))
+        w2 = draw(st.sampled_from([w, w, Fr(4), Fr(8), Fr(24)]))
         h2 = draw(st.sampled_from([h, h, h, Fr(8), Fr(12)]))
         mode = draw(st.sampled_from(["gap-char", "gap-word", "overlap", "plain"]))
         d, nr = draw(delta())
@@ -251,7 +254,8 @@ def run_of_glyphs(draw, la, x, y, start_id, n=None):
             else:
                 near |= nr
             gap = Fr(1, 2)
-        nxt = {"x": cur["x"] + cur["w"] + gap, "y": cur["y"] + dy, "w": w2, "h": h2, "t": _letter(start_id + i)}
+        nx = cur["x"] - gap - w2 if leftward else cur["x"] + cur["w"] + gap
+        nxt = {"x": nx, "y": cur["y"] + dy, "w": w2, "h": h2, "t": _letter(start_id + i)}
         out.append(nxt)
         cur = nxt
     return out, near
